@@ -31,6 +31,12 @@ def event_init(it, fn, args, kwargs):
             c.hset(r, 'signal', c.to_int(it.w.user_signal_number(it, signal)))
         c.hset(r, 'signal_name', it.w.strobj(signal))
         return None
+    if isinstance(signal, SRef) and signal.pytype is None:
+        # a value of unknown static type (e.g. out of json): a string takes the name branch, anything else that is
+        # not a registered number is rejected
+        if not c.branch(B.is_str(signal.e), 'signal-is-a-string'):
+            raise Raised('TypeError')
+        signal = SRef(signal.e, 'str')
     if isinstance(signal, SRef) and signal.pytype == 'str':
         c.hset(r, 'signal', sig_num(sval(signal.e)))
         c.hset(r, 'signal_name', signal.e)
